@@ -454,7 +454,8 @@ def main(argv=None):
     if harness_errors:
         for err in harness_errors[:3]:
             print('HARNESS-ERROR property={} {}'.format(pid, err))
-        return 2
+        if not violations:
+            return 2
     if violations:
         seen = set()
         for path, info in violations:
